@@ -317,9 +317,11 @@ SyncStep ==
           /\ diag' = IF okC /\ okP /\ okO /\ okF THEN <<>>
                      ELSE <<"Sync", l, [okC |-> okC, okP |-> okP, okO |-> okO, okF |-> okF],
                             IF ~okC THEN DiffC(r.C, LoggedC(Ev.state)) ELSE <<>>, IF ~okP THEN r.par ELSE <<>>, r.out, Ev.out>>
-          /\ clean' = (Ev.out.exit = "ok" /\ CleanSynced(newc, Ev.state.fs) /\ (~dmg \/ fullrebuild))
+          \* a sync that went on over a parity file shorter than the state uses (finding F12, reported below) leaves stripes
+          \* recorded as synced without parity: a damage episode for what follows, like a lost parity block
+          /\ clean' = (Ev.out.exit = "ok" /\ CleanSynced(newc, Ev.state.fs) /\ (~(dmg \/ (r.must = "parity-too-small" /\ r.out.exit # "refused")) \/ fullrebuild))
           /\ snap' = IF Ev.out.exit = "ok" THEN Ev.state.fs ELSE snap
-          /\ dmg' = (dmg /\ ~(Ev.out.exit = "ok" /\ fullrebuild))
+          /\ dmg' = ((dmg \/ (r.must = "parity-too-small" /\ r.out.exit # "refused")) /\ ~(Ev.out.exit = "ok" /\ fullrebuild))
           \* the content of a file at the scan that (re)created its record
           /\ ghost' = [d \in D |-> [n \in DOMAIN newc.cf[d] |->
                           IF n \in Fresh(L0, fs, d) /\ n \in DOMAIN fs[d] THEN fs[d][n].b
@@ -445,7 +447,7 @@ CheckStep ==
                        THEN C04_Check(C, fs, par, a, Ev.out) ELSE <<>>) \o
                       (IF afterfix /\ Ev.out.rc # 0 THEN <<<<"C01", "check-after-fix-finds-errors", Ev.out>>>> ELSE <<>>) \o
                       \* C07: an interrupted sync that was run again to its end leaves an array on which check finds nothing
-                      (IF "expect_clean" \in DOMAIN a /\ Ev.out.rc # 0 THEN <<<<"C07", "check-after-resumed-sync-finds-errors", Ev.out>>>> ELSE <<>>)
+                      (IF "expect_clean" \in DOMAIN a /\ Ev.out.rc # 0 /\ ~dmg THEN <<<<"C07", "check-after-resumed-sync-finds-errors", Ev.out>>>> ELSE <<>>)
           \* a full check without any error ends a damage episode
           /\ dmg' = (dmg /\ ~(~a.audit /\ Ev.out.rc = 0 /\ PresentOf(a) = Levels /\ a.range.bstart = 0 /\ a.range.bcount = 0
                               /\ "flt" \notin DOMAIN a))
